@@ -14,6 +14,7 @@ import (
 	"math/big"
 	"net/url"
 	"strings"
+	"sync"
 	"testing"
 
 	"pgregory.net/rapid"
@@ -274,5 +275,63 @@ func TestC05DSA(t *testing.T) {
 			return map[string]any{"case": c, "accepted": accepted}
 		})
 		return vs
+	})
+}
+
+// TestC05Concurrent: signature verification of one request must not depend on what is being verified for another service
+// provider at the same moment. Genuine signed POST requests of service provider 0 and forged ones - naming service provider 1,
+// which must sign, but signed with provider 0's registered key and carrying no KeyInfo - are sent from 16 goroutines at once.
+// No forged request may ever be accepted. (Interleavings are whatever the Go scheduler produces.)
+func TestC05Concurrent(t *testing.T) {
+	col := ev.For("C05", "exploration", c05Rule)
+	runPlain(t, col, "TestC05", func(fail func(*ev.Violation, any)) {
+		spec := stdSpec()
+		spec.SPs[0].AuthnRequestsSigned = "true"
+		spec.SPs[1].AuthnRequestsSigned = "true"
+		w := mustBuild(spec)
+		mk := func(id, issuer, keyName string, keyInfo bool) obs.HTTPReq {
+			a := spsim.NewAuthnReq(id, issuer)
+			tree := a.Tree(plainStyle)
+			if err := spsim.SignTree(tree, spsim.Signing{Alg: world.AlgRSASHA256, KeyName: keyName, KeyInfo: keyInfo, CertLayout: "plain", DSPrefix: "ds"}); err != nil {
+				panic(err)
+			}
+			hr, _, _ := spsim.Encode(spec.IdP.Route("sso"), xt.Write(tree, plainStyle.W), spsim.Transport{Binding: "post", Plus: true, Encoding: A, RelayState: "rs"}, nil)
+			return hr
+		}
+		k0 := spec.SPs[0].KeyNames[0]
+		const rounds = 150
+		var wg sync.WaitGroup
+		for g := 0; g < 16; g++ {
+			wg.Add(1)
+			go func(g int) {
+				defer wg.Done()
+				for i := 0; i < rounds; i++ {
+					if g%2 == 0 {
+						obs.Do(w.Handler, mk(fmt.Sprintf("_genuine-%d-%d", g, i), spec.SPs[0].EntityID, k0, i%2 == 0))
+					} else {
+						obs.Do(w.Handler, mk(fmt.Sprintf("_forged-%d-%d", g, i), spec.SPs[1].EntityID, k0, false))
+					}
+				}
+			}(g)
+		}
+		wg.Wait()
+		okCalls, _ := createCalls(w)
+		genuine, forged := 0, 0
+		for _, c := range okCalls {
+			if c.Req != nil && strings.HasPrefix(c.Req.Id, "_forged") {
+				forged++
+			} else {
+				genuine++
+			}
+		}
+		col.Count("concurrent/genuine-accepted", genuine)
+		col.Count("concurrent/forged-sent", 8*rounds)
+		col.AddDistinct(16*rounds, 8*rounds)
+		if forged > 0 {
+			fail(ev.V("C05/forged-accepted-under-concurrency", "%d of %d requests naming service provider 1 but signed with service provider 0's key were accepted while genuine requests of provider 0 were being verified (%d genuine accepted)", forged, 8*rounds, genuine), map[string]any{"note": "schedule-dependent: 16 goroutines, see TestC05Concurrent"})
+		}
+		if genuine != 8*rounds {
+			fmt.Printf("NOTE C05 concurrent: %d of %d genuine requests accepted\n", genuine, 8*rounds)
+		}
 	})
 }
